@@ -1,0 +1,19 @@
+// SPDX-FileCopyrightText: 2022-present Intel Corporation
+//
+// SPDX-License-Identifier: Apache-2.0
+
+//go:build verif
+
+// Contracts for the deductive verifier in /verif (govc). Comment-only: this file contains no code
+// and is excluded from every build that does not set the "verif" tag.
+
+package mastership
+
+//@ import configapi "github.com/onosproject/onos-api/go/onos/config/v2"
+
+//@ func (*Reconciler).Reconcile
+//@   props C10
+//@   requires r != nil
+//@   ensures {C10} at-most-one-write: cfgStatusWrites <= old(cfgStatusWrites) + 1 && cfgValueWrites == old(cfgValueWrites) && deviceSetCalls == old(deviceSetCalls) && cfgCreates == old(cfgCreates)
+//@   ensures {C10} new-term-iff-new-master: cfgStatusWrites > old(cfgStatusWrites) ==> readCfgOK && ((writtenCfgMaster == "" && writtenCfgTerm == readCfgTerm && readCfgMaster != "") || writtenCfgTerm == readCfgTerm + 1)
+//@   ensures {C10} resign-iff-no-relation: cfgStatusWrites > old(cfgStatusWrites) ==> (writtenCfgTerm == readCfgTerm ==> len(targetRelations) == 0 && writtenCfgMaster == "") && (writtenCfgTerm != readCfgTerm ==> len(targetRelations) != 0)
